@@ -28,6 +28,7 @@ type genLayout struct {
 	merged2    bool   // a second video track V2 whose segments are pairs of V1's (half as many segments per loop)
 	notFor     string // properties (space separated) whose generators assume one segment grid for all representations
 	onlyFor    string // the asset exists only for these properties' generators
+	stppT      int    // timescale of the stpp text track (0 = 1000)
 	shortLast  int    // the last sample of the first video segment is this many ticks shorter (the file ends before the next starts)
 	stpp       bool   // stpp text track at timescale 1000 following the video grid (needs ms-integral video durations)
 	thumbs     bool   // thumbnail track (needs uniform video durations)
@@ -52,7 +53,7 @@ var genLayouts = []genLayout{
 	// the first segment file ends before the second starts (a packager's wrong last-sample duration): the loaded table
 	// must be contiguous all the same
 	{name: "gen_gap", videoT: 90000, frameDur: 3600, videoSegs: []int{180000, 180000, 180000}, audioCodec: "aac", audioSegs: []int{94, 94, 94}, shortLast: 600, onlyFor: "C15"},
-	{name: "gen_short", videoT: 15360, frameDur: 512, videoSegs: []int{15360, 15360, 15360}, audioCodec: "aac", audioSegs: []int{47, 47, 46}, stpp: true},
+	{name: "gen_short", videoT: 15360, frameDur: 512, videoSegs: []int{15360, 15360, 15360}, audioCodec: "aac", audioSegs: []int{47, 47, 46}, stpp: true, stppT: 90000},
 }
 
 func bundledRoot() string {
@@ -255,7 +256,11 @@ func genAsset(root string, L genLayout) error {
 <Representation id="A1" codecs="%s" bandwidth="48000" audioSamplingRate="%d"/></AdaptationSet>`, mpdT, mpdDur, codec, audioT)
 	}
 	if L.stpp {
-		tInit, tTrack, err := retimedInit("testpic_2s/imsc1_txt_sv/init.mp4", 1000)
+		stppT := L.stppT
+		if stppT == 0 {
+			stppT = 1000
+		}
+		tInit, tTrack, err := retimedInit("testpic_2s/imsc1_txt_sv/init.mp4", stppT)
 		if err != nil {
 			return err
 		}
@@ -269,16 +274,16 @@ func genAsset(root string, L genLayout) error {
 			}
 			ms := d * 1000 / L.videoT
 			data := ttmlDoc(tt+ms/4, tt+ms*3/4, fmt.Sprintf("%s sub %d", L.name, i+1))
-			s := []mp4.FullSample{{Sample: mp4.Sample{Flags: mp4.SyncSampleFlags, Dur: uint32(ms), Size: uint32(len(data))}, Data: data}}
-			if err := writeSeg(filepath.Join(dir, fmt.Sprintf("T1/%d.m4s", i+1)), uint32(i+1), tTrack, uint64(tt), s); err != nil {
+			s := []mp4.FullSample{{Sample: mp4.Sample{Flags: mp4.SyncSampleFlags, Dur: uint32(ms * stppT / 1000), Size: uint32(len(data))}, Data: data}}
+			if err := writeSeg(filepath.Join(dir, fmt.Sprintf("T1/%d.m4s", i+1)), uint32(i+1), tTrack, uint64(tt*stppT/1000), s); err != nil {
 				return err
 			}
 			tt += ms
 		}
 		fmt.Fprintf(&asets, `<AdaptationSet contentType="text" mimeType="application/mp4" lang="en" segmentAlignment="true" startWithSAP="1">
 <Role schemeIdUri="urn:mpeg:dash:role:2011" value="subtitle"/>
-<SegmentTemplate startNumber="1" timescale="1000" duration="%d" initialization="$RepresentationID$/init.mp4" media="$RepresentationID$/$Number$.m4s"/>
-<Representation id="T1" codecs="stpp.ttml.im1t" bandwidth="1000"/></AdaptationSet>`, L.videoSegs[0]*1000/L.videoT)
+<SegmentTemplate startNumber="1" timescale="%d" duration="%d" initialization="$RepresentationID$/init.mp4" media="$RepresentationID$/$Number$.m4s"/>
+<Representation id="T1" codecs="stpp.ttml.im1t" bandwidth="1000"/></AdaptationSet>`, stppT, L.videoSegs[0]*stppT/L.videoT)
 	}
 	if L.thumbs {
 		for i := range L.videoSegs {
